@@ -1,7 +1,7 @@
 (* C12 — ParseSource is total: any input ends in a value or a located syntax diagnostic.
    Statements only; the proofs are in LexerProofs.v, ParserProofs.v, CdcnProofs.v. *)
 From Coq Require Import String.
-From Verif Require Import Base Params Value Lexer Literals Parser LexerProofs ParserProofs CdcnProofs ParseRun ScannerLeak.
+From Verif Require Import Base Params Value Lexer Literals Parser LexerProofs ParserProofs CdcnProofs ParseRun ScannerLeak ParserCount ParserCountProofs.
 Close Scope string_scope.
 Close Scope Z_scope.
 
@@ -121,6 +121,66 @@ Example C12_ex_deepest_pushback :
   parse_source (fun _ => None) (default_crank []) (zs "[" ++ [10%Z] ++ zs "1 2") = PSyntax (mkTok TInteger [50%Z] 2 3).
 Proof. vm_compute. reflexivity. Qed.
 
+(* ====================================================================================================
+   Round 3: "no scanner goroutine is left", connected to the parser model.
+   ParserCount.v is Parser.v with one addition: a panic keeps the parser state, so the number of tokens the
+   parser has removed from the queue when it returns OR panics is computed ([parse_consumed]); the addition
+   changes no result.  [drain_tokens] is the deferred drainTokens of the repaired ParseSource; the queue
+   between the goroutines is the two-counter model of ScannerLeak.v ([scanner_finishes N k C]: in every
+   maximal interleaving the scanner has added all N tokens, when the other side removes k and then stops).
+   Trusted: that the Queue implementation behaves like that two-counter model (AddValue blocks exactly when C
+   values wait, RemoveHead exactly when none does): C04/C05.
+   ==================================================================================================== *)
+Theorem C12_consumption_model_agrees :
+  forall (fparse : list Z -> option Z) (crank : val -> val -> option comparison) (ts : list token),
+  fst (c_parse_tokens fparse crank ts) = parse_tokens fparse crank ts.
+Proof. exact consumption_model_agrees. Qed.
+
+(* the condition is exact (and not vacuous: a maximal interleaving always exists) *)
+Theorem C12_scanner_finishes_exactly_when :
+  forall N k C : nat, k <= N -> 1 <= C -> (scanner_finishes N k C <-> N - k <= C).
+Proof. exact scanner_finishes_exactly_when. Qed.
+
+(* the repaired ParseSource: for EVERY source text, whatever the parser does (value, diagnostic, runtime
+   panic), parser + drain remove all tokens the scanner produces, and the scanner goroutine finishes *)
+Theorem C12_scanner_always_finishes :
+  forall (fparse : list Z -> option Z) (crank : val -> val -> option comparison) (src : list Z),
+  consumed_with_drain fparse crank src = Some (length (lex src)) /\
+  scanner_finishes (length (lex src)) (length (lex src)) queue_size.
+Proof. exact scanner_always_finishes. Qed.
+
+(* the code before fix b834acd (no drain): the scanner finishes exactly when the tokens the parser left
+   behind fit into the queue ... *)
+Theorem C12_scanner_finishes_before_fix_iff :
+  forall (fparse : list Z -> option Z) (crank : val -> val -> option comparison) (src : list Z),
+  scanner_finishes (length (lex src)) (consumed_before_fix fparse crank src) queue_size <->
+  length (lex src) - consumed_before_fix fparse crank src <= queue_size.
+Proof. exact scanner_finishes_before_fix_iff. Qed.
+
+(* ... which fails for the text of findings/pre-fix/D18-scanner-goroutine-left.json *)
+Theorem C12_scanner_always_finishes_refuted_before_fix :
+  exists src : list Z, forall (fparse : list Z -> option Z) (crank : val -> val -> option comparison),
+  ~ scanner_finishes (length (lex src)) (consumed_before_fix fparse crank src) queue_size.
+Proof. exact scanner_finishes_refuted_before_fix. Qed.
+
+Example C12_ex_d18 :
+  d18_source = zs "[1 2, 3, 4, 5, 6, 7, 8, 9, 10, 11, 12, 13, 14, 15, 16, 17](List)" /\
+  length (lex d18_source) = 38 /\ consumed_before_fix (fun _ => None) (default_crank []) d18_source = 3 /\
+  parse_source (fun _ => None) (default_crank []) d18_source = PSyntax (mkTok TInteger [50%Z] 1 4) /\
+  consumed_with_drain (fun _ => None) (default_crank []) d18_source = Some 38 /\ queue_size = 16.
+Proof. repeat split; vm_compute; reflexivity. Qed.
+
+(* what the parser itself consumes: everything for a value (EOF read: done_), the Error token for an illegal
+   character, one token of look-ahead for a diagnostic *)
+Example C12_ex_consumed :
+  parse_consumed (fun _ => None) (default_crank []) (lex (zs "[3, 1, 2, 1](Set)")) = length (lex (zs "[3, 1, 2, 1](Set)")) /\
+  parser_done (fun _ => None) (default_crank []) (lex (zs "[3, 1, 2, 1](Set)")) = true /\
+  lex (zs "[1, $ 2](List)") = [mkTok TDelimiter [91%Z] 1 1; mkTok TInteger [49%Z] 1 2; mkTok TDelimiter [44%Z] 1 3; mkTok TError [36%Z] 1 5; mkTok TEOF [36%Z] 1 5] /\
+  parse_consumed (fun _ => None) (default_crank []) (lex (zs "[1, $ 2](List)")) = 4 /\
+  parser_done (fun _ => None) (default_crank []) (lex (zs "[1, $ 2](List)")) = false /\
+  consumed_with_drain (fun _ => None) (default_crank []) (zs "[1, $ 2](List)") = Some 5.
+Proof. repeat split; vm_compute; reflexivity. Qed.
+
 Print Assumptions C12_scan_order_pinned.
 Print Assumptions C12_stack_capacity_suffices.
 Print Assumptions C12_string_recognizer_is_backtracking.
@@ -138,3 +198,8 @@ Print Assumptions C12_diagnostic_located.
 Print Assumptions C12_diagnostic_error_char.
 Print Assumptions C12_scanner_finishes_iff.
 Print Assumptions C12_drained_scanner_finishes.
+Print Assumptions C12_consumption_model_agrees.
+Print Assumptions C12_scanner_finishes_exactly_when.
+Print Assumptions C12_scanner_always_finishes.
+Print Assumptions C12_scanner_finishes_before_fix_iff.
+Print Assumptions C12_scanner_always_finishes_refuted_before_fix.
